@@ -116,6 +116,40 @@ template <class M> void query(const Fixture<M> &f, int q, Log &l) {
 }
 static const int NQ = 12;
 
+// fine-grained queries for the controlled scheduler: one API call (or one short traversal) on one entity each
+template <class M> void micro(const Fixture<M> &f, int q, Log &l) {
+    const M &m = f.m;
+    const int nhf = (int)m.n_halffaces(), nhe = (int)m.n_halfedges();
+    HalfFaceHandle hodd(nhf > 3 ? 3 : 1), heven(nhf > 2 ? 2 : 0);
+    HalfEdgeHandle he0 = m.halfface(hodd).halfedges()[0], he1 = m.halfface(heven).halfedges()[1 % m.halfface(heven).halfedges().size()];
+    VertexHandle v0(0), v1(1), v2(2);
+    CellHandle c0(0);
+    switch (q) {
+    case 0: drain(l, m.vc_iter(v0)); break;
+    case 1: drain(l, m.vf_iter(v1)); break;
+    case 2: drain(l, m.hehf_iter(he0)); drain(l, m.hec_iter(he1)); break;
+    case 3: l << m.find_halfface({v0, v1, v2}).idx() << m.find_halfface({v2, v1, v0}).idx(); break;
+    case 4: l << m.find_halfface_extensive({v0, v2, v1}).idx() << m.find_halfedge(v1, v0).idx(); break;
+    case 5: l << m.next_halfedge_in_halfface(he0, hodd).idx() << m.prev_halfedge_in_halfface(he0, hodd).idx(); break;
+    case 6: l << m.next_halfedge_in_halfface(he1, heven).idx() << m.prev_halfedge_in_halfface(he1, heven).idx(); break;
+    case 7: for (auto he : m.halfface(hodd).halfedges()) l << he.idx(); for (auto he : m.opposite_halfface(heven).halfedges()) l << he.idx(); l << m.halfedge(he0).to_vertex().idx(); break;
+    case 8: l << m.adjacent_halfface_in_cell(m.cell(c0).halffaces()[1], m.halfface(m.cell(c0).halffaces()[1]).halfedges()[0]).idx(); l << m.find_halfface_in_cell({v0, v1, v2}, c0).idx() << m.find_halfedge_in_cell(v0, v1, c0).idx(); break;
+    case 9: l << m.is_boundary(v0) << m.is_boundary(EdgeHandle(0)) << m.is_boundary(c0) << m.valence(v1) << m.valence(EdgeHandle(1)); break;
+    case 10: drain(l, m.cv_iter(c0)); drain(l, m.cc_iter(c0)); drain(l, m.ce_iter(c0)); break;
+    case 11: l << m.barycenter(c0)[0] << m.barycenter(FaceHandle(0))[1] << m.normal(hodd)[2] << m.length(EdgeHandle(0)); break;
+    case 12: { int x = (*f.pi)[v1]; bool b = (*f.pb)[EdgeHandle(1)]; std::string s = (*f.ps)[c0]; l << x << b << s << (*f.pv)[hodd][0] << f.pi->name() << f.pi->size(); break; }
+    case 13: for (auto v : m.get_halfface_vertices(hodd)) l << v.idx(); for (auto v : m.get_halfface_vertices(heven, v1)) l << v.idx(); drain(l, m.hfv_iter(hodd)); break;
+    case 14: drain(l, m.bhf_iter()); break;
+    case 15:
+        if constexpr (std::is_same_v<M, TetM>) { for (auto v : m.get_cell_vertices(c0)) l << v.idx(); drain(l, m.tv_iter(c0)); l << m.halfface_opposite_vertex(m.cell(c0).halffaces()[2]).idx(); TetTopology t(m, c0, v0); l << t.d().idx() << t.bdc().idx(); }
+        else if constexpr (std::is_same_v<M, HexM>) { drain(l, m.hv_iter(c0)); drain(l, m.csc_iter(c0, 4)); drain(l, m.hfshf_iter(m.cell(c0).halffaces()[5])); l << (int)m.orientation(m.cell(c0).halffaces()[3], c0); }
+        else { l << m.n_vertices_in_cell(c0) << m.is_incident(FaceHandle(0), EdgeHandle(0)); drain(l, m.ehf_iter(EdgeHandle(0))); }
+        break;
+    }
+    (void)nhe;
+}
+static const int NMICRO = 16;
+
 template <class M> std::string mesh_key(const M &m) {
     std::ostringstream o;
     const TopologyKernel &t = m;
@@ -136,6 +170,7 @@ struct Found { std::string casestr, rule, detail; };
 
 #ifdef THRMC_SCHED
 // ---------------------------------------------------------------------------------------------- schedule exploration
+static bool g_capped = false;
 template <class M> void explore(const char *kname, int nthreads, int bound, int qa, int qb, int qc, double deadline, long &schedules, long &points_total, std::vector<Found> &found, std::vector<std::string> &samples,
                                 const std::string &replay) {
     Fixture<M> f;
@@ -144,13 +179,13 @@ template <class M> void explore(const char *kname, int nthreads, int bound, int 
     std::vector<int> qs{qa, qb};
     if (nthreads == 3) qs.push_back(qc);
     std::vector<std::string> ref;
-    for (int q : qs) { Log l; query(f, q, l); ref.push_back(l.o.str()); }
+    for (int q : qs) { Log l; micro(f, q, l); ref.push_back(l.o.str()); }
     auto t0 = std::chrono::steady_clock::now();
     std::string base = std::string("c20|") + kname + "|q=" + std::to_string(qa) + "," + std::to_string(qb) + (nthreads == 3 ? "," + std::to_string(qc) : "") + "|sched=";
     auto run_one = [&](const std::vector<sched::Segment> &sc) -> sched::RunResult {
         std::vector<Log> logs(qs.size());
         std::vector<std::function<void()>> bodies;
-        for (size_t i = 0; i < qs.size(); ++i) bodies.push_back([&, i] { query(f, qs[i], logs[i]); });
+        for (size_t i = 0; i < qs.size(); ++i) bodies.push_back([&, i] { micro(f, qs[i], logs[i]); });
         auto rr = sched::run(bodies, sc);
         ++schedules;
         for (long p : rr.points) points_total += p;
@@ -182,7 +217,7 @@ template <class M> void explore(const char *kname, int nthreads, int bound, int 
         len = rr.points;
     } while (std::next_permutation(order.begin(), order.end()) && found.empty());
     // iterative context bounding: 1 preemption, then 2 (two threads: A[0..i] B[0..j] A.. B..)
-    auto timed_out = [&]() { return deadline > 0 && std::chrono::duration<double>(std::chrono::steady_clock::now() - t0).count() > deadline; };
+    auto timed_out = [&]() { bool t = deadline > 0 && std::chrono::duration<double>(std::chrono::steady_clock::now() - t0).count() > deadline; if (t) g_capped = true; return t; };
     int n = (int)qs.size();
     for (int a = 0; a < n && found.empty(); ++a) {
         for (long i = 1; i < len[a] && found.empty(); ++i) {
@@ -241,6 +276,7 @@ int main(int argc, char **argv) {
         else if (k == "--replay") {
             // c20|kernel|q=a,b[,c]|sched=...
             replay = nxt();
+            if (replay == "free") { replay.clear(); continue; }  // free-running jobs are replayed by running them again
             std::string r = replay;
             size_t p = r.find("|sched=");
             std::string sc = p == std::string::npos ? "" : r.substr(p + 7);
@@ -276,7 +312,13 @@ int main(int argc, char **argv) {
     }
     double wall = std::chrono::duration<double>(std::chrono::steady_clock::now() - t0).count();
     std::ostringstream o;
-    o << "{\"prop\":\"C20\",\"states\":" << schedules << ",\"transitions\":" << points << ",\"evaluations\":" << evals << ",\"distinct_nontrivial\":" << evals << ",\"capped\":false,\"wall_s\":" << wall
+    o << "{\"prop\":\"C20\",\"states\":" << schedules << ",\"transitions\":" << points << ",\"evaluations\":" << evals << ",\"distinct_nontrivial\":" << evals << ",\"capped\":" << (
+#ifdef THRMC_SCHED
+          g_capped
+#else
+          false
+#endif
+          ? "true" : "false") << ",\"wall_s\":" << wall
       << ",\"checks\":{\"schedules\":" << schedules << ",\"scheduling-points\":" << points << "},\"samples\":[";
     for (size_t i = 0; i < samples.size(); ++i) o << (i ? "," : "") << "\"" << jesc(samples[i]) << "\"";
     o << "],\"violations\":[";
